@@ -40,20 +40,23 @@ const (
 )
 
 type Profile struct {
-	MaxDepth int    // nesting budget of expressions (default 5)
-	MaxDecls int    // generated top-level functions besides the helpers (default 6)
-	MaxStmts int    // statements per block (default 5)
-	Features uint64 // mask of F* (0 = all that the profile allows)
-	Tiny     bool   // the tinyfo subset
-	Wrap     bool   // allow int arithmetic to wrap around
-	Hazard   string // "" | pap-effect | unused-binder | unit-typevar | generic-union-match
+	MaxDepth       int    // nesting budget of expressions (default 5)
+	MaxDecls       int    // generated top-level functions besides the helpers (default 6)
+	MaxStmts       int    // statements per block (default 5)
+	Features       uint64 // mask of F* (0 = all that the profile allows)
+	Tiny           bool   // the tinyfo subset
+	Wrap           bool   // allow int arithmetic to wrap around
+	Hazard         string // "" | pap-effect | unused-binder | unit-typevar | generic-union-match
+	PermuteRecords bool   // record literals may be written in another field order than declared
 }
 
-func DefaultProfile() Profile { return Profile{MaxDepth: 5, MaxDecls: 6, MaxStmts: 5, Features: FAll} }
+func DefaultProfile() Profile {
+	return Profile{MaxDepth: 5, MaxDecls: 6, MaxStmts: 5, Features: FAll, PermuteRecords: true}
+}
 
 // TinyProfile: what tinyfo accepts (see c17.go for the experimentally established subset).
 func TinyProfile() Profile {
-	return Profile{MaxDepth: 4, MaxDecls: 5, MaxStmts: 4, Tiny: true,
+	return Profile{MaxDepth: 4, MaxDecls: 5, MaxStmts: 4, Tiny: true, PermuteRecords: true,
 		Features: FPartial | FPipe | FIfValue | FIfStmt | FAndOr | FMatchU | FRecord | FTuple | FDestr | FSlice | FCallbacks | FRecursion | FFunParams | FEq}
 }
 
@@ -289,7 +292,15 @@ func (g *gen) findUnion(name string) *Decl {
 func (g *gen) recordOf(t *Type, sub func(*Type) *Expr) *Expr {
 	d := g.findRec(t.Name)
 	e := &Expr{K: ERecord, Name: d.Name, T: t}
-	for _, f := range d.Fields {
+	order := make([]int, len(d.Fields))
+	for i := range order {
+		order[i] = i
+	}
+	if g.prof.PermuteRecords && g.r.Chance(1, 3) {
+		order = g.r.Perm(len(d.Fields)) // written in another order than declared
+	}
+	for _, i := range order {
+		f := d.Fields[i]
 		e.Fields = append(e.Fields, f.Name)
 		e.Args = append(e.Args, sub(f.T))
 	}
